@@ -48,6 +48,15 @@ def record_parse_case(cid, chars_, mods, origin='tlc'):
                 setattr(q, attr, '')
                 return {'out': _cs(trees.format_label(q))}
             ev('delete', dele, comp=comp, p=plog(p0))
+    # the documented deletion idiom mutates the parsed label in place; a later parse of the same
+    # string (same process) must not be affected by it
+    def again():
+        for attr in ('coindex', 'gapindex', 'headmarker', 'gf', 'label'):
+            q = trees.parse_label(s)
+            setattr(q, attr, '')
+            trees.format_label(q)
+        return plog(trees.parse_label(s))
+    ev('parse_again', again, first=plog(p0) if p0 is not None else {})
     ev('parse_sep', lambda: plog(trees.parse_label(s, gf_separator='#')), reqsep=['#'])
 
     def fmt_sep():
